@@ -164,7 +164,8 @@ def get_layout(sc, st, ob):
 def check_get(sc, st, ob):
     rq = sc["rq"]
     nb, exp, down, local, bs = get_layout(sc, st, ob)
-    obtained_max = (1 if local is not None else 0) + sum(1 for i in range(nb) if bs[i] is not None and i not in down and (1 + i) not in exp)
+    # a copy whose deadline has passed is a copy: its holder answers with it (D48, fixed) and the reader judges the winner's expiry
+    obtained_max = (1 if local is not None else 0) + sum(1 for i in range(nb) if bs[i] is not None and i not in down)
     exists_reachable = (local is not None and 0 not in exp) or any(bs[i] is not None and i not in down and (1 + i) not in exp for i in range(nb))
     vals = set()
     if local is not None:
